@@ -142,6 +142,8 @@ def _unchanged(ctx):
 PROCESS_PACKET_CHECKS = {
     "undefined-type-ignored": lambda c: _defined(c["args"][0]) or (_unchanged(c) and c["exc"] is None),
     "only-defined-types-reach-handlers": lambda c: c["exc"] is None or _defined(c["args"][0]),
+    # a subscriber that subscribes another one for the same type from inside its callback must not disturb the delivery
+    "iterated-container-unchanged": lambda c: c["exc"] is None and len(REPLAY_CALLS.get(id(c["conn"])) or []) == 1,
     "closed-connection-delivers-nothing": lambda c: c["pre"]["connection_state"].name != "CLOSED" or not REPLAY_CALLS.get(id(c["conn"])),
 }
 
@@ -153,6 +155,19 @@ def process_packet_prepare(o, conn, args):
     calls = []
     object.__setattr__(conn, "_replay_calls", calls) if False else None
     REPLAY_CALLS[id(conn)] = calls
+    if "iterated-container-unchanged" in o["goal"]:
+        if args[0] not in core.MESSAGE_TYPE_TO_PROTO:
+            args = [8, b""]                      # PingResponse: a defined type with no internal reaction
+        else:
+            args = [args[0], b""]
+        cls = core.MESSAGE_TYPE_TO_PROTO[args[0]]
+        late = lambda m: None                    # noqa: E731
+
+        def sub(m):
+            calls.append(m)
+            conn.add_message_callback(late, (cls,))
+        conn._message_handlers[cls] = {sub}
+        return args
     if "handlers.has:T" in (o.get("path") or "") and args[0] in core.MESSAGE_TYPE_TO_PROTO:
         conn._message_handlers[core.MESSAGE_TYPE_TO_PROTO[args[0]]] = {lambda m: calls.append(m)}     # one subscriber, as on the refuted path
     return args
